@@ -143,6 +143,10 @@ def serialise(n, plan, path=()):
     if nselem:
         tag = '%s:%s' % (p.get('nselem_prefix', n.nsname), n.tag)
         attrs = attrs[1:]
+        if p.get('defaultns'):
+            # the element is put into the template namespace by a default-namespace declaration on its own tag
+            tag = n.tag
+            attrs.append('xmlns="%s"' % NS[n.nsname])
     return '<%s%s>%s</%s>' % (tag, ''.join(' ' + a for a in attrs), ''.join(serialise(k, plan) for k in n.kids), tag)
 
 
@@ -171,6 +175,9 @@ def make_plan(rng, root, mode, data_ok):
             spell = {}
             if n.nstag:
                 p['unprefixed'] = rng.random() < .6
+                if rng.random() < .3 and not n.foreign and all(isinstance(k, str) for k in n.kids):
+                    p['defaultns'] = True
+                    p['unprefixed'] = True
                 if rng.random() < .5:
                     p['nselem_prefix'] = ALT[n.nsname]
                     if n.nsname not in visible:
